@@ -1347,12 +1347,17 @@ def generate_loopy(result: Array | AbstractResultWithNamedArrays | dict[str, Arr
     # optimization: remove any ImplStored tags on outputs to avoid redundant
     # store-load operations (see https://github.com/inducer/pytato/issues/415)
     # (This must be done after all the calls have been inlined)
-    outputs = DictOfNamedArrays(
-        {name: (output.without_tags(ImplStored(),
-                                    verify_existence=False)
-                if not isinstance(output,
-                                  InputArgumentBase)
+    # (One stripped copy per distinct output: an array that appears under
+    # several names must stay a single node.)
+    stripped_outputs: dict[Array, Array] = {}
+    for output in outputs._data.values():
+        if output not in stripped_outputs:
+            stripped_outputs[output] = (
+                output.without_tags(ImplStored(), verify_existence=False)
+                if not isinstance(output, InputArgumentBase)
                 else output)
+    outputs = DictOfNamedArrays(
+        {name: stripped_outputs[output]
          for name, output in outputs._data.items()},
         tags=outputs.tags)
 
